@@ -57,9 +57,9 @@ def _cause(sheet, idx, item, adjusted_sels, ob, eff=None, ignore_drop=False):
 def _chain(sheet, name):
     out = []
     seen = set()
-    while name and name in sheet.defs and name not in seen:
+    while name and name in sheet.defs_css and name not in seen:
         seen.add(name)
-        nxt = O.var_name(sheet.defs[name][1])
+        nxt = O.var_name(sheet.defs_css[name])
         if nxt:
             out.append(nxt)
         name = nxt
@@ -95,7 +95,7 @@ def judge_obs(sheet, settings, ob):
             len(ob["cards"]) == 0 or any(c.get("selector") is None or c.get("after") is None or c.get("before") is None or c.get("bg") is None
                                          for c in ob["cards"])):
         return [dict(sig="__skipped__/report_markup_not_understood", case=case, msg="the report exists but no card could be read from it")]
-    defs_in = {n: val for n, (_sel, val) in sheet.defs.items()}
+    defs_in = dict(sheet.defs_css)
     default_bg = dbg or "white"
     coloured = [(i, sel, it) for i, (sel, it, _w) in enumerate(sheet.rules) if it.has_text_colour()]
     cards = ob["cards"] or []
